@@ -7,6 +7,7 @@ import (
 	"crypto/sha256"
 	"fmt"
 	"go/ast"
+	"go/constant"
 	"go/token"
 	"go/types"
 	"os"
@@ -460,6 +461,19 @@ func (c *Ctx) declOf(fn *ssa.Function) *ast.FuncDecl {
 		return d
 	}
 	return nil
+}
+
+// pkgIntConst returns the value of an integer constant declared at package level.
+func pkgIntConst(c *Ctx, pkgPath, name string) (int64, bool) {
+	p := c.PkgByID[pkgPath]
+	if p == nil || p.Types == nil {
+		return 0, false
+	}
+	k, ok := p.Types.Scope().Lookup(name).(*types.Const)
+	if !ok {
+		return 0, false
+	}
+	return constant.Int64Val(constant.ToInt(k.Val()))
 }
 
 func isErrorType(t types.Type) bool {
